@@ -4,6 +4,6 @@
 id=$1; k=$2; demo=$3; breaks=$4; needs=$5; det=$6; notes=${7:-}
 n=1; while [ -d /verif/seeded/$id-$n ]; do n=$((n+1)); done
 name=$id-$n
-r=$(/verif/tools/confirmseed.sh /tmp/seed2-$id $k $demo $name 2>&1 | tail -1)
+r=$(/verif/tools/confirmseed.sh /tmp/seed${ROUND:-2}-$id $k $demo $name 2>&1 | tail -1)
 echo "$r"
-case "$r" in CONFIRMED*) /verif/tools/mkmeta.py $name $id $demo "$breaks" "$needs" "$det" "$notes"; [ -f /tmp/seed2-$id/NOTES.md ] && cp /tmp/seed2-$id/NOTES.md /verif/seeded/$id-round2-NOTES.md;; esac
+case "$r" in CONFIRMED*) /verif/tools/mkmeta.py $name $id $demo "$breaks" "$needs" "$det" "$notes"; [ -f /tmp/seed${ROUND:-2}-$id/NOTES.md ] && cp /tmp/seed${ROUND:-2}-$id/NOTES.md /verif/seeded/$id-round${ROUND:-2}-NOTES.md;; esac
